@@ -373,6 +373,9 @@ pub struct NetAdapters {
     pub target: SocketAddr,
     /// clients with these effective IPs wait in the filter stage forever (a backend that is slow for them only)
     pub blocked_ips: Vec<IpAddr>,
+    /// the status backend panics / fails for clients with these effective IPs
+    pub panic_ips: Vec<IpAddr>,
+    pub fail_ips: Vec<IpAddr>,
 }
 
 impl std::fmt::Debug for NetAdapters {
@@ -383,13 +386,19 @@ impl std::fmt::Debug for NetAdapters {
 
 impl NetAdapters {
     pub fn new() -> Self {
-        Self { log: Arc::new(Mutex::new(NetLog::default())), gate: None, never_discover: false, target: "10.9.8.7:25570".parse().unwrap(), blocked_ips: vec![] }
+        Self { log: Arc::new(Mutex::new(NetLog::default())), gate: None, never_discover: false, target: "10.9.8.7:25570".parse().unwrap(), blocked_ips: vec![], panic_ips: vec![], fail_ips: vec![] }
     }
 }
 
 impl StatusAdapter for NetAdapters {
     async fn status(&self, client_addr: &SocketAddr, _server_addr: (&str, u16), _protocol: Protocol) -> passage_adapters::Result<Option<ServerStatus>> {
         self.log.lock().unwrap().status_clients.push(*client_addr);
+        if self.panic_ips.contains(&client_addr.ip()) {
+            panic!("verif: the status backend panics for {client_addr} (on purpose)");
+        }
+        if self.fail_ips.contains(&client_addr.ip()) {
+            return Err(passage_adapters::Error::FailedFetch { adapter_type: "verif", cause: "the status backend fails on purpose".into() });
+        }
         Ok(Some(ServerStatus { version: ServerVersion { name: "NetSim".into(), protocol: 769 }, players: None, description: None, favicon: None, enforces_secure_chat: None }))
     }
 }
